@@ -8,6 +8,11 @@ use std::io::{BufRead, Write};
 
 mod p_config;
 mod sim;
+mod p_purge;
+mod p_apply;
+mod p_logcrash;
+mod p_membership;
+mod p_c10;
 mod p_snapxfer;
 mod p_lease;
 mod p_scan;
@@ -55,6 +60,16 @@ fn dispatch(probe: &str, rt: &tokio::runtime::Runtime, case: Value) -> Value {
         "lease_ds" => p_lease::ds(case),
         "lease_cluster" => p_lease::cluster(rt, case),
         "snapxfer" => p_snapxfer::run(rt, case),
+        "durability" => p_c10::run(rt, case),
+        "membership" => p_membership::membership(rt, case),
+        "learner" => p_membership::learner(rt, case),
+        "join" => p_membership::join(rt, case),
+        "node_restart" => p_membership::node_restart(rt, case),
+        "promote" => p_membership::promote(rt, case),
+        "logcrash" => p_logcrash::run(rt, case),
+        "commit_apply" => p_apply::run(rt, case),
+        "purge_role" => p_purge::role(rt, case),
+        "purge_route" => p_purge::route(rt, case),
         "majority" => p_buflog::majority(rt, case),
         _ => Value::String(format!("unknown probe {probe}")),
     }
